@@ -160,6 +160,8 @@ def run_task(task):
                 out['unsupported'] = str(e)
                 return out
             out['info'].update(paths=eng.stats['paths'], cover=bool(eng.cover),
+                               feas_checks=eng.stats['feas_checks'],
+                               feas_unknown=eng.stats.get('feas_unknown', 0),
                                inlined=sorted(eng.stats['inlined']),
                                callees=sorted(eng.stats['callee_contracts']),
                                unverified_termination=sorted(eng.unverified_termination),
@@ -171,6 +173,8 @@ def run_task(task):
                 r = solve.discharge(axs, o, seed, cross=cross)
                 r.update(name=o.name, props=o.props, kind=o.kind, func=o.func, label=o.label,
                          line=o.line, path=o.path)
+                if (o.extra or {}).get('uncertain_path'):
+                    r['uncertain_path'] = True
                 if r['status'] != 'discharged':
                     r['goal'] = str(z3.simplify(o.goal))[:600]
                 return r
